@@ -420,7 +420,7 @@ impl<'a, T: Read + Write + Seek> PointCloudWriter<'a, T> {
             Error::invalid("Number of values does not match prototype length")?
         }
 
-        // Go over all values to validate and extract min/max values
+        // Validate all values first, to avoid changing any state for invalid points
         for (i, p) in self.prototype.iter().enumerate() {
             let value = &values[i];
 
@@ -437,7 +437,10 @@ impl<'a, T: Read + Write + Seek> PointCloudWriter<'a, T> {
                     "Type mismatch at index {i}: value type does not match prototype"
                 ))?
             }
+        }
 
+        // Go over all values to extract min/max values
+        for (i, p) in self.prototype.iter().enumerate() {
             // Update cartesian bounds
             if p.name == RecordName::CartesianX
                 || p.name == RecordName::CartesianY
